@@ -255,9 +255,8 @@ func (p *parser) rangeElem() (Range, bool) {
 					return rg, false
 				}
 				pa.Value, pa.Quoted = v, true
-				if strings.Contains(v, ",") || strings.Contains(v, "q=") {
-					p.fail("quoted-string-with-comma-or-q=")
-				}
+				// (quoted strings holding ',' or 'q=' used to be left unjudged: the parser mis-split them.
+				// Since the parameter loop reads one parameter at a time they are part of the judged grammar.)
 			} else {
 				pa.Value = p.token()
 				if pa.Value == "" {
